@@ -1,0 +1,8 @@
+//go:build verif
+
+package blockstore
+
+// verifPoint is called at named points of the caching layers when the package is
+// built with -tags verif (model-based conformance checks drive goroutines from
+// point to point). It is a no-op unless a test replaces it.
+var verifPoint = func(site string, args ...any) {}
